@@ -101,8 +101,8 @@ class Check(PropertyCheck):
             "rt cases: RFC-valid field lists (70%), single-byte mutations (20%), raw (10%). rd cases: random line lists incl. "
             "empty lines, continuation lines, missing colon. distinct = distinct case; non-trivial = at least one mutating op "
             "(seq) / at least one field or line (rt, rd).")
-    budget = {"quick": 30000, "thorough": 600000}
-    time_budget = {"quick": 25, "thorough": 420}
+    budget = {"quick": 20000, "thorough": 600000}
+    time_budget = {"quick": 15, "thorough": 420}
     fingerprints = [
         "mitmproxy.coretypes.multidict:_MultiDict.__getitem__", "mitmproxy.coretypes.multidict:_MultiDict.__setitem__",
         "mitmproxy.coretypes.multidict:_MultiDict.__delitem__", "mitmproxy.coretypes.multidict:_MultiDict.__iter__",
